@@ -250,6 +250,17 @@ def oracle_c03(rows):
                             fails.append({"row": (r["seed"], r["wallet"]), "seed": r["seed"], "step": idx,
                                           "what": "reservation took output %s that was not free (status %s)"
                                                   % ((a, c, m), None if o is None else o["status"])})
+            # a finalize that signed: every input of the final transaction that is this wallet's is reserved
+            # for that transaction (Locked under its sent entry)
+            if s["op"]["k"] == "finalize" and s["rc"] == [0] and (s["extra"].get("tx_inputs") or {}).get("keys"):
+                no = outputs_by_key(snap)
+                sent = {(t["parent"], t["id"]) for t in snap["txs"] if t["slate"] == s["op"]["slate"] and t["type"] == 2}
+                for a, c, m in s["extra"]["tx_inputs"]["keys"]:
+                    o = no.get((a, c, m))
+                    if o is not None and not (o["status"] in (2, 3) and (o["root"], o["tx"]) in sent):
+                        fails.append({"row": (r["seed"], r["wallet"]), "seed": r["seed"], "step": idx,
+                                      "what": "finalize_tx signed a transaction whose input %s is not reserved for it "
+                                              "(status %s, linked to %s)" % ((a, c), o["status"], (o["root"], o["tx"]))})
             if s["op"]["k"] == "init_send" and s["rc"] == [0] and prev is not None and s["extra"].get("sel_inputs"):
                 # (the internal refresh may have confirmed an Unconfirmed record first: judge by the snapshot after)
                 no = outputs_by_key(snap)
